@@ -2,74 +2,111 @@
 ENTRY = {'coq_dir': 'C14',
  'harness': 'c14',
  'cases': {'quick': 300, 'thorough': 3000},
- 'consts': ['NUM_BUCKETS', 'K_BUCKET'],
+ 'consts': ['NUM_BUCKETS',
+            'K_BUCKET',
+            'MAX_ADDRESSES',
+            'C19_KAD_MAX_ADDRESSES',
+            'SCORE_CONNECTION_ESTABLISHED',
+            'SCORE_CONNECTION_FAILURE_NEG',
+            'SCORE_PUBLIC_ADDRESS_BONUS'],
  'nontrivial_min_trace': 12,
- 'rule': 'two seeded random streams against the real code, 2/3 table API and 1/3 Kademlia event loop. Stream A (real RoutingTable, 256 '
-         'buckets): a local key (all-zero, all-one or random), 3-5 groups of 4-30 keys crafted into one bucket each (buckets 0, 1, 2-7, '
-         '254, 255 and random ones; raw key bytes through the verif_from_raw hook), scattered keys, in 30% of the long cases 10-60 SHA-256 '
-         'keys of real peer ids (driven through the real add_known_peer / KBucketEntry::insert), and a history of 20-150 (quick) / 20-400 '
-         '(thorough) operations concentrated on the groups so that buckets overflow: entry, insert through the entry, add_known_peer with '
-         'every ConnectionType and with/without addresses, on_connection_established (dialer/listener), on_dial_failure, closest(target, '
-         'k) for targets in uniformly drawn bucket indices, targets at distance 1..63 and 1..63 << 250, stored keys and the local key, k '
-         'in {0,1,3,20,25,1000}, and the raw bucket visiting order of ClosestBucketsIter; four fixed-shape cases per run store all 63 '
-         'six-bit distance patterns (shifted by 0, 123, 250 bits) and query all 64 patterns as targets. Stream B (the REAL Kademlia::run '
-         'loop polled by hand on a real TransportService, hooks of C16 plus a routing-table snapshot in the probe): peer ids are mined so '
-         'that 21-30 of them fall into each of 2-3 buckets among 255..248 of the local SHA-256 key (buckets overflow), replication factor '
-         'k in {1,3,5,20,25}; 30-140 (quick) / 40-300 (thorough) events: AddKnownPeer commands, connections established (with and without '
-         "pending dials; the transport manager's belief is forced so that dials are accepted) and closed, inbound FIND_NODE / GET_VALUE / "
-         'GET_PROVIDERS requests whose reply bytes are captured from the substream carrier and decoded, inbound substreams that fail '
-         '(disconnect_peer with the connection still open), dial failures, find_node queries whose outbound substreams are answered with '
-         'FIND_NODE replies naming 1-26 peers (incl. the local peer, the responder, address-less peers) so that update_routing_table runs, '
-         'put_record_to_peers (bare entry()). What the query engine decides (PeerContexts created, pending dials, peers a reply led '
-         "update_routing_table to see: RoutingTableUpdate events) is observed and written into the case as the step's list of model "
-         'operations. In both streams, after every operation/step the outcome code resp. PeerContext set and the full content (key, '
-         'has-address, connection) of every bucket that changed are compared with the extracted Coq model, closest results / replies and '
-         'visiting orders are compared element by element, and the final table is dumped. The first 40 cases are short so that the in-Coq '
-         'vm_compute cross-check of the extraction can evaluate them. A case is non-trivial when its trace has >= 12 numbers; distinct = '
-         'distinct (case, trace) pairs',
- 'trusted_base': ['SHA-256 is not modelled (keys are 256-bit strings: 8 limbs on the wire, MSB-first bit lists in Coq); the U256 '
-                  'arithmetic of types.rs (xor, leading zeros / ilog2, integer comparison, bit test, from_big_endian of the bytes) is '
-                  'modelled in coq/C14/U256.v and proved equal to the list-of-bits operations (C14_index_is_ilog2_xor, '
-                  'C14_distance_compare_u256, C14_bit_is_testbit, C14_bytes_distance_compare); that the `uint` crate implements these '
-                  'integer operations is exercised by the differential run',
-                  'stream A: keys with chosen bytes cannot go through add_known_peer / KBucketEntry::insert (both recompute the key from '
-                  'the peer id): for those the harness calls the real RoutingTable::entry and writes the returned slot exactly as these '
-                  'two functions do (verif_overwrite / push_addresses + verif_set_connection hooks, incl. the '
-                  'Connected-is-not-overwritten-by-NotConnected rule); SHA-256 keys of real peer ids and all of stream B use the real '
-                  'functions',
-                  'stream B: the decisions of the query engine are inputs of the model that the harness reads off the implementation '
-                  '(probe snapshot of `peers` / `pending_dials`, RoutingTableUpdate events); the model checks that table and PeerContext '
-                  'set evolve consistently with them',
-                  'the dummy peer pushed by KBucket::entry carries a random PeerId; it is modelled as a node with the empty key and is '
-                  'assumed never to equal a looked-up key (probability 2^-256)'],
- 'level_text': 'Proof: for keys of any length L and any bucket size K, every table reachable by any history of table operations (entry / '
-               'insert / add_known_peer / on_connection_established / on_dial_failure / disconnect) and every table reachable by any '
-               'history of the Kademlia glue operations of mod.rs that write it (AddKnownPeer and bootstrap, on_connection_established, '
-               'disconnect_peer, PeerContext creation, update_routing_table with arbitrary replies, on_dial_failure, bare entry()) has L '
-               'buckets of at most K nodes, every stored peer sits in the bucket given by the highest set bit of its XOR distance to the '
-               'local key (so the local key is never stored), no peer is stored twice, a Connected/CanConnect peer is never displaced by '
-               'an operation that does not name it, and an entry that says Connected keeps saying so under every glue operation except '
-               'disconnect_peer for that very peer (after the repair of F-C14b; refuted for the code before it). ClosestBucketsIter is '
-               'modelled as the four-state machine of the code: it terminates, visits every bucket, and its order is the distance-sorted '
-               'permutation of all buckets with at most one extra visit of bucket 0; closest(target, k) — and therefore every FIND_NODE / '
-               'GET_VALUE / GET_PROVIDERS reply, which sends it verbatim — is proved to be the first k elements of a strictly '
-               'distance-increasing permutation of all stored peers with an address (sorted, duplicate-free, exactly the min(k, n) '
-               'closest, never the local node, at most k) for all tables, targets and k outside the class of finding F-C14a. Sorting '
-               'before or after dropping address-less peers is proved equivalent; the U256 arithmetic is proved equal to the bit-list '
-               'model. The duplicate-free conjunct is REFUTED inside the F-C14a class (bit 0 of distance(local,target) set or target = '
-               'local, and bucket 0 holds an addressed peer): C14_iter_once_refuted / C14_closest_nodup_refuted, reproduced on the real '
-               'code by corpus/C14/f_c14a_bucket0_twice.case and recorded in KNOWN_FINDINGS.txt (upstream pins the double visit in a unit '
-               'test, so it is reported, not repaired).',
- 'level_note': 'Trusted: Coq kernel, ExtrOcamlBasic extraction, harness and hooks; SHA-256; in stream A crafted keys are written through '
-               'the Vacant slot by the harness (mirroring add_known_peer / insert); the address store is abstracted to non-empty/empty; '
-               "the query engine's choices enter stream B as observed inputs. The reply handlers do not remove the requester from the "
-               'reply (C14_reply_may_contain_requester; not demanded by the property). disconnect_peer also runs on a failed substream '
-               'while the connection is still open — by design of mod.rs; the theorem is therefore stated relative to disconnect_peer, not '
-               'to the transport connection. Nothing in the crate ever writes CanConnect/CannotConnect into the table (no dial-failure '
-               'downgrade exists); peers are never removed from the table.',
- 'assumptions': ['all keys have the same length as the local key (256 bits in the code)',
+ 'rule': 'two seeded random streams against the real code, 2/3 table API and 1/3 Kademlia event loop, after the stored corpus cases (witnesses of '
+         "F-C14a/b/c and the shape 'full bucket of connected peers, dial failure of the only address, newcomer' on both streams). Stream A (real "
+         'RoutingTable, 256 buckets; operations carry explicit address numbers: with/without the /p2p suffix, private/public IP): (i) random '
+         'histories: a local key (all-zero, all-one or random), 3-5 groups of 4-30 keys crafted into one bucket each (buckets 0, 1, 2-7, 254, 255 '
+         'and random ones; raw key bytes through the verif_from_raw hook), scattered keys, in 30% of the long cases 10-60 SHA-256 keys of real peer '
+         'ids (driven through the real add_known_peer / KBucketEntry::insert), 20-150 (quick) / 20-400 (thorough) operations concentrated on the '
+         'groups so that buckets overflow: entry, insert, add_known_peer with every ConnectionType and with/without addresses, '
+         'on_connection_established (dialer/listener), on_dial_failure, closest(target, k) for targets in uniformly drawn bucket indices, at '
+         'distance 1..63 and 1..63 << 250, stored keys and the local key, k in {0,1,3,20,25,1000}, and the raw visiting order of ClosestBucketsIter; '
+         '(ii) pressure cases (3 of 12): one bucket (5..255; 25% with real peer ids in bucket 255) is filled with 20 peers that are told to be '
+         'connected (85%; two thirds inbound, i.e. without a scored address), then 10-45 operations on them — dial failures naming exactly the '
+         'stored addresses / one of them / none / others, re-mentions with each ConnectionType, inserts, entry(), reconnects, disconnects, '
+         'addresses() — then 1-5 newcomers of the same bucket (add / insert with every ConnectionType) interleaved with further dial failures; (iii) '
+         'address cases (1 of 12): 1-5 peers, pools of 40-200 address numbers, add_known_peer with up to 45 and insert with up to 70 addresses, dial '
+         'failures of up to 30, dialer connections, addresses() queries: the 64-record stores overflow (evicted record observed through the '
+         'verif_log hook and validated by the model) and addresses() cuts at 32; (iv) extreme cases: distances 1, 2, 3, 2^255, 2^255+1, 2^256-1, '
+         '2^248, 2^255-1, the local key under a second index and repeated keys, as peers and as targets; (v) four fixed-shape cases per run store '
+         'all 63 six-bit distance patterns (shifted by 0, 123, 250 bits) and query all 64 patterns. Stream B (the REAL Kademlia::run loop polled by '
+         'hand on a real TransportService, hooks of C16 plus a routing-table snapshot in the probe): peer ids are mined so that 21-30 of them fall '
+         'into each of 2-3 buckets among 255..248 of the local SHA-256 key, replication factor k in {1,3,5,20,25}, 12% of the cases in '
+         'RoutingTableUpdateMode::Manual; 30-140 (quick) / 40-300 (thorough) events: AddKnownPeer commands, connections established (outbound or '
+         'inbound; with and without pending dials), a SECOND connection to a connected peer, one of two connections closed (primary or secondary), '
+         'all connections closed, inbound FIND_NODE / GET_VALUE / GET_PROVIDERS requests whose reply bytes are captured from the substream carrier '
+         'and decoded, inbound substreams that fail (disconnect_peer with the connection still open), dial failures (60% naming the stored '
+         '/p2p-suffixed address), find_node queries whose outbound substreams are answered with FIND_NODE replies naming 1-26 peers (incl. the local '
+         'peer, the responder, address-less peers) so that update_routing_table runs, put_record_to_peers (bare entry()). What the query engine '
+         "decides (PeerContexts created, pending dials, RoutingTableUpdate events) is observed and written into the case as the step's model "
+         'operations. In both streams, after every operation/step the outcome code resp. PeerContext set and the full content of every bucket that '
+         'changed (stream A: key, has-address, connection and the whole address store with scores; stream B: key, has-address, connection) are '
+         'compared with the extracted Coq model, closest results / replies / addresses() and visiting orders are compared element by element, and '
+         'the final table is dumped. The oracle prop_ok judges each trace on its own: bucket bound, placement, uniqueness, has-address = store '
+         'non-empty, closest = exactly the k closest addressed stored peers in strictly increasing distance, and GROUND-TRUTH connectedness — the '
+         "set of peers that were told connected while stored and not disconnected since (Model.gt_step on the observed tables, not the table's flag) "
+         'must each still be stored in the bucket of its distance after every operation. The first 40 cases are short so that the in-Coq vm_compute '
+         'cross-check of the extraction can evaluate them. A case is non-trivial when its trace has >= 12 numbers; distinct = distinct (case, trace) '
+         'pairs',
+ 'trusted_base': ['SHA-256 is not modelled (keys are 256-bit strings: 8 limbs on the wire, MSB-first bit lists in Coq); the U256 arithmetic of '
+                  'types.rs (xor, leading zeros / ilog2, integer comparison, bit test, from_big_endian of the bytes) is modelled in coq/C14/U256.v '
+                  'and proved equal to the list-of-bits operations; that the `uint` crate implements these integer operations is exercised by the '
+                  'differential run',
+                  'stream A: keys with chosen bytes cannot go through add_known_peer / KBucketEntry::insert (both recompute the key from the peer '
+                  'id): for those the harness calls the real RoutingTable::entry and writes the returned slot exactly as these two functions do '
+                  '(verif_overwrite / push_addresses + verif_set_connection hooks, incl. the rule that nothing overwrites Connected); SHA-256 keys '
+                  'of real peer ids and all of stream B use the real functions. The table part of Kademlia::disconnect_peer (Occupied entry := '
+                  'NotConnected) is transcribed in stream A and driven for real in stream B',
+                  'stream B: the decisions of the query engine are inputs of the model that the harness reads off the implementation (probe snapshot '
+                  'of `peers` / `pending_dials`, RoutingTableUpdate events); that the protocol hears of a connection only when the first one opens '
+                  'and the last one closes is the behaviour of the real TransportService (properties C08/C09), which the stream drives, not a model '
+                  'assumption',
+                  'multiaddresses are numbers in the model (number, /p2p suffix present or not, private/public); HashMap-order dependent choices of '
+                  'AddressStore (evicted minimal record, order of equal scores in addresses()) are observed and validated by the model, not '
+                  'predicted',
+                  'the dummy peer pushed by KBucket::entry carries a random PeerId; it is modelled as a node with the empty key and is assumed never '
+                  'to equal a looked-up key (probability 2^-256)'],
+ 'level_text': 'Proof: for keys of any length L and any bucket size K, every table reachable by any history of table operations (entry / insert / '
+               'add_known_peer / on_connection_established / on_dial_failure / disconnect) and every table reachable by any history of the Kademlia '
+               'glue operations of mod.rs that write it (AddKnownPeer and bootstrap, on_connection_established, disconnect_peer, PeerContext '
+               'creation, update_routing_table with arbitrary replies, on_dial_failure, bare entry(); a glue history is proved to BE the table '
+               'history kflat) has L buckets of at most K nodes, every stored peer sits in the bucket given by the highest set bit of its XOR '
+               'distance to the local key (so the local key is never stored; index undefined iff same key; top-bit difference -> last bucket), no '
+               'peer is stored twice. Connectedness is judged by GROUND TRUTH, a ghost function of the history (`ghost`: a Connected claim — '
+               'on_connection_established on a stored peer, add_known_peer(.., Connected) that left it stored, insert(.., Connected) through a '
+               "Vacant slot — with no later disconnect; proved equal to 'the last connection-related operation was such a claim'): every ghost "
+               'member is stored in its bucket with an entry that says Connected (C14_gt_connected_stored), stays a member and stays stored under '
+               'every continuation without its disconnect — dial failures, re-mentions with any connection type, newcomers to its full bucket '
+               '(C14_gt_connected_kept; same for glue histories, C14_kad_gt_*), and is returned by closest() unless k closer addressed peers fill '
+               'the result. A key disappears from a bucket only when a NEW key of that bucket is stored, the bucket is full, and the displaced node '
+               'is the first replaceable one (C14_displaced_only_for_room); a full bucket without a replaceable node rejects '
+               '(C14_full_bucket_rejects). ClosestBucketsIter is modelled as the four-state machine of the code: it terminates, visits every bucket, '
+               'and its order is the distance-sorted permutation of all buckets with at most one extra visit of bucket 0; closest(target, k) — and '
+               'therefore every FIND_NODE / GET_VALUE / GET_PROVIDERS reply — is the first k elements of a strictly distance-increasing permutation '
+               'of all stored peers with an address (sorted, duplicate-free, exactly the min(k, n) closest, never the local node) for all tables, '
+               'targets and k outside the class of finding F-C14a; distances never tie. The address stores inside the entries are modelled '
+               '(AddrModel.v: insert with capacity 64, public bonus, eviction of a minimal record, score updates; addresses() = best 32 by score): '
+               'the table part of the rich run is Model.step, has-address = store non-empty is an invariant of all histories, stores stay <= 64 '
+               'without duplicates, a dial failure re-scores exactly the failed address, a re-mention does not erase a score. The U256 arithmetic is '
+               'proved equal to the bit-list model. REFUTED and recorded: duplicate-free inside the F-C14a class (upstream pins the double visit: '
+               'reported, not repaired); before the repairs a Connected entry was downgraded by a mention (F-C14b: NotConnected; F-C14c: '
+               'CanConnect/CannotConnect -> displaced by the next newcomer; C14_remention_displaces_refuted_before_fix), both fixed in the repo and '
+               'pinned by corpus witnesses.',
+ 'level_note': 'Trusted: Coq kernel, ExtrOcamlBasic extraction, harness and hooks; SHA-256; in stream A crafted keys are written through the Vacant '
+               'slot by the harness (mirroring add_known_peer / insert). Ground truth is what the table was TOLD while it held the peer: a '
+               'connection established to a peer the table does not store leaves no trace (on_connection_established only updates an Occupied '
+               'entry), so a peer that connects first and is learned later from a reply of a third peer — without a PeerContext — is stored '
+               'NotConnected and is replaceable although its connection is open; disconnect_peer also runs on a failed substream while the '
+               "connection is still open (by design of mod.rs). Both are the crate's notion of 'connected' (Kademlia-level, not transport-level) and "
+               'are outside the statement; the theorems are stated relative to on_connection_established / disconnect_peer. Closing one of two '
+               'connections to a peer does not reach Kademlia at all (the real TransportService reports only the last close; exercised in stream B). '
+               'The reply handlers do not remove the requester from the reply (C14_reply_may_contain_requester; not demanded by the property) and '
+               'closest() has no exclude parameter. Nothing in the crate ever writes CanConnect/CannotConnect into the table; peers are never '
+               'removed from the table. In Manual update mode update_routing_table writes nothing (stream B: no table change on RoutingTableUpdate). '
+               'Address order among equal scores and the evicted record among equal minima depend on HashMap order and are validated, not predicted.',
+ 'assumptions': ['all keys have the same length as the local key (256 bits in the code) — needed for placement/closest, not for the ground-truth '
+                 'theorems',
                  "a dummy's random PeerId never hashes to a key that is looked up later",
-                 'AddressStore::insert never leaves a store empty (checked by the has-address flag in every bucket dump)',
                  'closest() / replies: the table is outside the F-C14a class, i.e. bucket 0 holds no addressed peer or bit 0 of '
                  'distance(local,target) is clear and target != local; inside the class the duplicate is a recorded finding',
-                 'routing-table update mode Automatic (in Manual mode update_routing_table writes nothing)']}
+                 'connectedness = told to the table while the peer is stored (on_connection_established / Connected claims) until disconnect_peer',
+                 'address scores stay within 0, +-100 and the public bonus (the only values routing_table.rs writes), so i32 saturation never '
+                 'applies']}
